@@ -193,9 +193,69 @@ def recompute_lemma(su, U, solver="kissat", timeout_s=600):
     if r == "sat":
         vals = c.evaluate([l for _, l in goals], mdl)
         out["failing"] = [lab for (lab, _), v in zip(goals, vals) if not v][:6]
+
+        def tv(l):
+            return c.evaluate([l], mdl)[0]
+        out["state"] = {"U": U, "dom": [list(row) for row, l in dom0.items() if tv(l)], "cod": [list(row) for row, l in cod0.items() if tv(l)],
+                        "dom_rel": dom.name, "cod_rel": cod.name, "obj_type": obj_t, "mor_type": mor_t,
+                        "apps": {app.name: [list(row) for row, l in app0[t].items() if tv(l)] for t, app in apps.items()},
+                        "own": {rel.name: [list(row) for row, l in own0[rel.name].items() if tv(l)] for rel in members},
+                        "member_types": sorted(apps)}
     rv, _ = terms.solve(c, ctx.assumes + pre + [-bound, c.orl([c.and2(dom0[(mm, a)], cod0[(mm, b)]) for mm in range(U) for a in range(U) for b in range(U) if a != b])], solver=solver, timeout_s=timeout_s)
     out["vacuity (a morphism between two objects exists)"] = rv
     return out
+
+
+def replay_recompute(su, sch, harness, name, state):
+    """native replay of a recompute-lemma counterexample: the state is rebuilt through the public API (every tuple new), close_until
+    stops at its first condition evaluation (right after recompute_model_indices) and the dumped all-copies are compared with the
+    inheritance closure of the asserted member tuples.  Returns (confirmed, observations); programs with member types are not replayed."""
+    if state["member_types"]:
+        return False, ["programs with member types are not replayed"]
+    U = state["U"]
+    script = []
+    for t in sch.types:
+        item = su.prog.methods.get((sch.model, "new_" + t))
+        if item is None or len(item["sig"]["inputs"]) != 1:
+            return False, ["type %s has no argument-less constructor" % t]
+        script += ["new_" + t] * U
+    for row in state["dom"]:
+        script.append("insert_%s %d %d" % (state["dom_rel"], row[0], row[1]))
+    for row in state["cod"]:
+        script.append("insert_%s %d %d" % (state["cod_rel"], row[0], row[1]))
+    for rel, rows in state["own"].items():
+        for row in rows:
+            script.append("insert_%s %s" % (rel, " ".join(map(str, row))))
+    script.append("close_until 0")
+    try:
+        rc, out, err = harness.run(name, script, timeout=60)
+    except Exception as ex:
+        return False, ["native run failed: %r" % ex]
+    if rc != 0:
+        return True, ["native run panics: " + err.strip().split("\n")[0][:200]]
+    dumps = [e for e in N.parse_output(out) if e[0] == "dump"]
+    if not dumps:
+        return False, ["no dump"]
+    nat = N.canonical_native(sch, dumps[0][2])
+    problems = []
+    dommap = {m_: a for m_, a in state["dom"]}
+    codmap = {m_: b for m_, b in state["cod"]}
+    for rel, rows in state["own"].items():
+        clo = set(tuple(r_) for r_ in rows)
+        for _ in range(U + 1):
+            for m_, a in dommap.items():
+                if m_ in codmap:
+                    clo |= set((codmap[m_],) + r_[1:] for r_ in clo if r_[0] == a)
+        R = sch.rels[rel]
+        got = set()
+        for ix in R.indices:
+            if ix.suffix == "_all" and ix.eqs is None and len(ix.order) == R.arity:
+                inv = {o: i for i, o in enumerate(ix.order)}
+                for tup in nat[("field", ix.field)]:
+                    got.add(tuple(tup[inv[col]] for col in range(R.arity)))
+        if got != clo:
+            problems.append("%s after recompute_model_indices: all copies hold %s, the inheritance closure of the asserted tuples is %s" % (rel, sorted(got), sorted(clo)))
+    return bool(problems), problems + ([] if problems else ["script: " + "; ".join(script)])
 
 
 def run_program(task):
@@ -209,7 +269,7 @@ def run_program(task):
         harness = N.NativeHarness(task["scratch"], repo=P.REPO)
         harness.exe = task["exe"]
         harness.built = True
-        t_end = t0 + task["budget"]
+        t_end = t0 + task["budget"]     # (the recompute lemma below uses `harness` for its native replay)
 
         def left():
             return max(5, int(min(task["timeout"], t_end - time.time())))
@@ -221,7 +281,12 @@ def run_program(task):
                 ok = lem["result"] == "unsat" and lem["vacuity (a morphism between two objects exists)"] == "sat"
                 res["queries"].append({"kind": "recompute lemma (arbitrary state)", "plan": [UL], "outcome": "unsat" if ok else str(lem)[:300], "info": {"nodes": lem["nodes"], "goals": lem["goals"]}})
                 if lem["result"] == "sat":
-                    res["inconclusive"].append("recompute lemma (U=%d) fails; no public history reproducing it was searched for at this size: %s" % (UL, lem.get("failing")))
+                    ctxL, IL, schL = suL.fresh()
+                    okr, obsr = replay_recompute(suL, schL, harness, name, lem["state"])
+                    if okr:
+                        res["violations"].append({"kind": "recompute lemma", "plan": [UL], "script": ["(state rebuilt through the API; see observed)"], "observed": obsr[:3], "info": {"state": lem["state"]}})
+                    else:
+                        res["inconclusive"].append("recompute lemma (U=%d) fails and the counterexample state does not reproduce natively with all tuples new: %s / %s" % (UL, lem.get("failing"), obsr[:1]))
                 elif not ok:
                     res["inconclusive"].append("recompute lemma (U=%d): %s" % (UL, lem))
             except (V.Unsupported, MemoryError, P.Timeout) as ex:
